@@ -293,7 +293,8 @@ def run_schedule(arrivals, base_lats, model_kind="hash", transformer=None, cance
         try:
             resp = await server.Evaluate(analysis_pb2.EvaluateRequest(position=pos), None)
         except asyncio.CancelledError:
-            cancelled.append(i)
+            if not state.get("tidying"):
+                cancelled.append(i)
             raise
         returned[i] = returned.get(i, 0) + 1
         words = np.frombuffer(resp.move_probs_bytes, dtype=np.uint32).tolist()
@@ -344,7 +345,10 @@ def run_schedule(arrivals, base_lats, model_kind="hash", transformer=None, cance
     for t in tasks:
         if t.done() and not t.cancelled() and t.exception() is not None:
             state["worker_error"] = repr(t.exception())[:300]
-    # tidy up: cancel what is left (the worker never returns)
+    if tasks and tasks[0].done() and tasks[0].cancelled():
+        state["worker_error"] = "CancelledError() escaped worker_loop (the task ended cancelled)"
+    # tidy up: cancel what is left (the worker never returns); these are not cancellations of the schedule
+    state["tidying"] = True
     for t in tasks:
         if not t.done():
             t.cancel()
@@ -468,7 +472,7 @@ def xf_oracle(sched, obs, tf):
 # --------------------------------------------------------------------------
 # schedule generator
 # --------------------------------------------------------------------------
-KINDS = ["burst", "trickle", "threshold8", "mixed", "backpressure", "window", "single"]
+KINDS = ["burst", "trickle", "threshold8", "mixed", "backpressure", "window", "slow", "single"]
 
 
 def _positions(rng, n):
@@ -535,6 +539,21 @@ def gen_schedule(rng, kind, max_req):
         burst(rng.randint(90, max(90, max_req)))
         pause()
         trickle(rng.randint(0, 6))
+    elif kind == "slow":
+        # one model call takes 1 s .. 60 s (free on the virtual clock): requests arrive during the slow call and
+        # after it; they must all be answered once the model has answered
+        burst(rng.randint(1, 12))
+        t0 = t
+        slow = rng.choice([1_000_000, 9_900_000, 10_100_000, 10_100_000, 60_000_000])
+        during = sorted(rng.sample(range(t0 + 2000, t0 + slow, GRID), rng.randint(1, 14)))
+        for x in during:
+            groups.append([x, rng.choice([1, 1, 1, 2, 5])])
+        t = max(t0 + slow, groups[-1][0]) + rng.choice([100, 2500, 40000, 1_000_000])
+        if rng.random() < 0.8:
+            trickle(rng.randint(1, 6))
+        if rng.random() < 0.4:
+            t += rng.choice([300, 5000])
+            burst(rng.randint(2, 20))
     elif kind == "window":
         # k = 1..7 requests are picked up one by one (gaps below the 1 ms timeout), then a burst arrives inside
         # the gather window in ONE loop iteration: 80 are queued, the rest block in put, and the worker drains the
@@ -585,7 +604,10 @@ def gen_schedule(rng, kind, max_req):
                 groups.pop()
     # latencies per model call, microseconds (multiples of the grid; 0 = completes at once)
     nl = rng.randint(1, 12)
-    if kind == "backpressure":
+    if kind == "slow":
+        lats = [slow] + [rng.choice([0, 300, 2500, 20000]) for _ in range(rng.randint(2, 6))] + \
+               ([rng.choice([1_000_000, 10_100_000])] if rng.random() < 0.3 else [])
+    elif kind == "backpressure":
         lats = [rng.choice([8000, 15000, 30000, 50000])] + [rng.choice([0, 100, 500, 2000, 8000, 20000]) for _ in range(nl)]
     else:
         style = rng.random()
@@ -607,14 +629,14 @@ def gen_schedule(rng, kind, max_req):
 def schedule_stream(run, n, max_req, with_backpressure, max_burst=200):
     rng = run.rng
     fixed_first = (["single", "threshold8", "burst", "trickle", "mixed"] +
-                   (["backpressure", "window", "window"] if with_backpressure else ["window"]))
+                   (["backpressure", "window", "window", "slow", "slow"] if with_backpressure else ["window", "slow"]))
     for k in range(n):
         if k < len(fixed_first):
             kind = fixed_first[k]
         else:
             r = rng.random()
             kind = ("mixed" if r < 0.32 else "trickle" if r < 0.50 else "burst" if r < 0.65 else "threshold8" if r < 0.78
-                    else "window" if r < 0.88 else "backpressure" if (r < 0.95 and with_backpressure)
+                    else "window" if r < 0.86 else "slow" if r < 0.90 else "backpressure" if (r < 0.95 and with_backpressure)
                     else "single" if r < 0.97 else "mixed")
         big = kind == "backpressure" or (kind == "window" and with_backpressure)
         yield gen_schedule(rng, kind, max_burst if big else max_req)
@@ -721,6 +743,7 @@ def grpc_session(which, positions, transformer, lat):
         return resp
 
     net.stub.Evaluate = Evaluate
+    held = []     # (record, the tensor and value the caller received): looked at again after the client's last call
     for p in positions:
         enc = encoding.encode(p)
         rec = {"model": which, "tps": ptn.format_tps(p), "latency_us": lat, "encoded": list(enc)}
@@ -757,7 +780,16 @@ def grpc_session(which, positions, transformer, lat):
             "client_value_bits": int(np.array([value], dtype=np.float32).view(np.uint32)[0]),
             "client_value_exact": float(np.float32(value)) == float(value),
         })
+        held.append((rec, probs, value))
         out.append(rec)
+    # the caller still holds every result: each must still be the policy vector of ITS position
+    for k, (rec, probs, value) in enumerate(held):
+        now = probs.numpy().view(np.uint32).tolist() if probs.dtype == torch.float32 else None
+        vnow = int(np.array([value], dtype=np.float32).view(np.uint32)[0])
+        if now != rec["client_words"] or vnow != rec["client_value_bits"]:
+            later = [r for (r, pr, _) in held[k + 1:] if pr.numpy().view(np.uint32).tolist() == now] or [held[-1][0]]
+            rec["overwritten"] = {"call": k, "position": rec["tps"], "by_call": out.index(later[0]), "by_position": later[0]["tps"],
+                                  "held_words_head_then": (rec["client_words"] or [])[:6], "held_words_head_now": (now or [])[:6]}
     worker.cancel()
     try:
         loop.run_until_complete(asyncio.gather(worker, return_exceptions=True))
@@ -819,6 +851,10 @@ def grpc_py_check(r):
     if "error" in r:
         return ["GRPCNetwork.evaluate raised " + r["error"]]
     bad = []
+    if r.get("overwritten"):
+        o = r["overwritten"]
+        bad.append(f"grpc-result-overwritten: the policy vector returned for position '{o['position']}' (call {o['call']}) "
+                   f"changed under the caller when the same client evaluated '{o['by_position']}' (call {o['by_call']})")
     if r["encoded"] != r["request_seen_by_stub"] or [r["encoded"]] != r["rows_seen_by_model"]:
         bad.append("the model call was not exactly one row equal to encoding.encode(pos)")
     if r["client_dtype"] != "torch.float32":
@@ -1013,7 +1049,7 @@ def correspondence(run):
         _report(run, csk, sched, obs, term, oracle(sched["arrivals"], obs), "correspondence (cancelled callers) with model/Server.v")
 
     # ---- GRPCNetwork.evaluate: float32 words -> bytes -> tensor, bit for bit
-    recs = grpc_roundtrips(run, 40 if quick else 300, 3 if quick else 12, tf, n_half=2 if quick else 8)
+    recs = grpc_roundtrips(run, 40 if quick else 300, 3 if quick else 12, tf, n_half=3 if quick else 8)
     csc = core.Cases(ID, "codec", HEADER, CTYPE_C, CHECK_C, show=SHOW_C, shard=20)
     # replies of the real Transformer (4572 words + 18288 bytes each) are cut into slices of CHUNK words
     cscx = core.Cases(ID, "codecx", HEADER, CTYPE_C, CHECK_C, show=SHOW_C, shard=2)
@@ -1022,7 +1058,8 @@ def correspondence(run):
         grpc_add_cases(r, csc, cscx, {"rec": r})
         distinct.add(hashlib.sha256(json.dumps(r.get("server_words")).encode()).hexdigest())
         py_bad = grpc_py_check(r)
-        key = "grpc-" + hashlib.sha256(json.dumps([r["model"], r["tps"]]).encode()).hexdigest()[:10]
+        key = ("grpc-result-overwritten-" if r.get("overwritten") else "grpc-") + \
+            hashlib.sha256(json.dumps([r["model"], r["tps"]]).encode()).hexdigest()[:10]
         if py_bad and _fresh(run, key, "grpc"):
             run.violation(key, {"clause": py_bad, "record": _short(r)})
     failing_c, shard_fail_c, nshc = csc.run()
@@ -1086,7 +1123,10 @@ def replay(run, rp):
         if r0["model"] in ("bfloat16", "float16"):
             half_dtypes(tf)
         # the same client/server pair serves an empty board, then the recorded position twice (stale replies show up)
-        recs = grpc_session(r0["model"], [tak.Position.from_config(tak.Config(size=p.size)), p, p], tf, r0.get("latency_us", 300))
+        seq = [tak.Position.from_config(tak.Config(size=p.size)), p, p]
+        if r0.get("overwritten"):
+            seq = [p, ptn.parse_tps(r0["overwritten"]["by_position"]), tak.Position.from_config(tak.Config(size=p.size))]
+        recs = grpc_session(r0["model"], seq, tf, r0.get("latency_us", 300))
         small = core.Cases(ID, "replay", HEADER, CTYPE_C, CHECK_C, show=SHOW_C, shard=4)
         bad = []
         for r in recs:
@@ -1094,7 +1134,7 @@ def replay(run, rp):
             grpc_add_cases(r, small, small, {})
         failing, shard_fail, _ = small.run() if len(small) else ([], [], 0)
         return {"violates": bool(bad or failing or shard_fail), "python_checks": bad, "codec_agrees_with_model": not (failing or shard_fail),
-                "records": [_short(r) for r in recs[1:]]}
+                "records": [_short(r) for r in recs]}
     if "schedule" not in rp:
         return {"violates": False, "note": "replay file holds no schedule (broken obligation without a failing input)",
                 "broken": rp.get("broken_obligations")}
